@@ -178,6 +178,13 @@ def run_property(prop, tier, only=None, jobs=None):
             else:
                 rep = {'reproduced': False, 'detail': 'no replay function'}
             d['replay'] = rep
+            if not rep.get('reproduced') and rep.get('skip'):
+                # the solver's counterexample cannot be materialised on a real file system (sizes far
+                # beyond what can be allocated, limits below README size): neither confirmed nor refuted
+                d['reason'] = 'solver counterexample not replayable: ' + str(rep.get('detail'))[:200]
+                d['status'] = 'unreplayed'
+                inconclusive.append(d)
+                continue
             if not rep.get('reproduced'):
                 faults.append((d, 'counterexample did not reproduce on the real code: '
                                + str(rep.get('detail'))[:500]))
@@ -231,10 +238,10 @@ def run_property(prop, tier, only=None, jobs=None):
     print(f'SUMMARY property={prop} tier={tier} jobs={len(results)} obligations={n_main} '
           f'discharged={discharged} violations={len(violations)} known={len(seen_known)} '
           f'inconclusive={len(inconclusive)} faults={len(faults)} wall={wall:.1f}s')
+    if violations:
+        return 1          # a reproduced violation is reported even if other obligations had machinery faults
     if faults:
         return 2
-    if violations:
-        return 1
     return 0
 
 
